@@ -46,6 +46,9 @@ type AgentH struct {
 	Overlap                 []string
 
 	// Optional user hooks invoked from inside the callbacks (after recording).
+	stateFn func(ice.ConnectionState)
+	candFn  func(ice.Candidate)
+	pairFn  func(l, r ice.Candidate)
 	OnState func(ice.ConnectionState)
 	OnCand  func(ice.Candidate)
 	OnPair  func(l, r ice.Candidate)
@@ -100,7 +103,7 @@ func NewAgentFromConfig(name string, h *simnet.Host, start time.Time, cfg *ice.A
 
 func wrapAgent(name string, h *simnet.Host, start time.Time, a *ice.Agent, uf, pw string) *AgentH {
 	ah := &AgentH{Name: name, A: a, Host: h, Ufrag: uf, Pwd: pw, start: start}
-	_ = a.OnConnectionStateChange(func(s ice.ConnectionState) {
+	ah.stateFn = func(s ice.ConnectionState) {
 		ah.mu.Lock()
 		ah.inState++
 		if ah.inState > 1 {
@@ -115,8 +118,8 @@ func wrapAgent(name string, h *simnet.Host, start time.Time, a *ice.Agent, uf, p
 		ah.mu.Lock()
 		ah.inState--
 		ah.mu.Unlock()
-	})
-	_ = a.OnCandidate(func(c ice.Candidate) {
+	}
+	ah.candFn = func(c ice.Candidate) {
 		ah.mu.Lock()
 		ah.inCand++
 		if ah.inCand > 1 {
@@ -131,8 +134,8 @@ func wrapAgent(name string, h *simnet.Host, start time.Time, a *ice.Agent, uf, p
 		ah.mu.Lock()
 		ah.inCand--
 		ah.mu.Unlock()
-	})
-	_ = a.OnSelectedCandidatePairChange(func(l, r ice.Candidate) {
+	}
+	ah.pairFn = func(l, r ice.Candidate) {
 		ah.mu.Lock()
 		ah.inPair++
 		if ah.inPair > 1 {
@@ -147,7 +150,8 @@ func wrapAgent(name string, h *simnet.Host, start time.Time, a *ice.Agent, uf, p
 		ah.mu.Lock()
 		ah.inPair--
 		ah.mu.Unlock()
-	})
+	}
+	ah.ReRegister()
 	return ah
 }
 
@@ -255,4 +259,12 @@ func (a *AgentH) Busy() int {
 	a.mu.Lock()
 	defer a.mu.Unlock()
 	return a.inState + a.inCand + a.inPair
+}
+
+// ReRegister installs the harness's three recording callbacks (again): what an application does that swaps
+// or re-installs a handler, possibly from inside a callback.
+func (a *AgentH) ReRegister() {
+	_ = a.A.OnConnectionStateChange(a.stateFn)
+	_ = a.A.OnCandidate(a.candFn)
+	_ = a.A.OnSelectedCandidatePairChange(a.pairFn)
 }
